@@ -57,6 +57,25 @@ def walk_case(ctx, rng, idx):
     from hypergraphx.dynamics import randwalk as rw
 
     h, N = connected_hg(rng)
+    walk_eval(ctx, rng, idx, h, N)
+    from ..mutate import same_count_edit
+
+    if same_count_edit(rng, h, keep_connected=True):  # same object again: a stale transition matrix shows here
+        ctx.event("re-evaluated-after-in-place-edit")
+        walk_eval(ctx, rng, idx, h, N)
+    es = list(h.get_edges())
+    if len(es) > 1:  # a plain removal (no insertion afterwards) that keeps the hypergraph connected
+        e = rng.choice(es)
+        w = h.get_weight(e)
+        h.remove_edge(e)
+        if h.is_connected() and len(h.get_nodes()) == N:
+            ctx.event("re-evaluated-after-edge-removal")
+            walk_eval(ctx, rng, idx, h, N)
+
+
+def walk_eval(ctx, rng, idx, h, N):
+    from hypergraphx.dynamics import randwalk as rw
+
     edges = [tuple(e) for e in h.get_edges()]
 
     def wit(extra=None):
@@ -92,13 +111,16 @@ def walk_case(ctx, rng, idx):
     # densities
     for _ in range(2):
         s0 = np.zeros(N)
-        if rng.random() < 0.5:
+        r_ = rng.random()
+        if r_ < 0.25:
             s0[rng.randrange(N)] = 1.0
+        elif r_ < 0.5:  # integer one-hot start (a perfectly good probability density)
+            s0 = np.eye(N, dtype=int)[rng.randrange(N)]
         else:
             s0 = np.array([rng.random() for _ in range(N)])
             s0 /= s0.sum()
         T = rng.randint(0, 6)
-        r = call(rw.random_walk_density, h, s0.copy(), T)
+        r = call(rw.random_walk_density, h, s0.copy() if rng.random() < 0.8 else s0.tolist(), T)
         if isinstance(r, _Raised):
             ctx.check("C18:density", False, f"C18:random_walk_density:raised:{type(r.e).__name__}", lambda: wit(r))
             continue
@@ -195,6 +217,8 @@ def contagion_case(ctx, rng, idx):
         I0 = {n: int(rng.random() < rng.choice([0.2, 0.5, 0.9])) for n in nodes}
         if rng.random() < 0.1:
             I0 = {n: 0 for n in nodes}
+        elif rng.random() < 0.15:
+            I0 = {n: 1 for n in nodes}  # everybody infected: absorbing only when mu = 0
         T = rng.choice([1, 2, 3, 6, 12])
         det = all(x in (0, 1) for x in (beta, betaD, mu))
         streams = ["seed"] if det and rng.random() < 0.5 else ["seed", rng.choice(["zeros", "ones", "alternate", "adjacent"])]
